@@ -405,6 +405,13 @@ pub fn check_case(spec: &ModelSpec, pred: &Predictor, store: bool, text: &[char]
         if pre < 2 && (n_tags != 0 || !tags.is_empty()) {
             return (false, Some(("no-categories".into(), format!("model defines no tag category but n_tags={n_tags} tags={tags:?}"))));
         }
+        // with score storing on, the candidate accessor works and reports no candidates for any token
+        if let (Some(c), Ok(tk)) = (&cands, &toks) {
+            let want: Result<Vec<Vec<Vec<(String, i32)>>>, String> = Ok(vec![vec![]; tk.len()]);
+            if pre < 2 && *c != want {
+                return (false, Some(("no-categories-cands".into(), format!("model defines no tag category and scores are stored, but tag_candidates gives {c:?}"))));
+            }
+        }
         return (false, None);
     };
     let nontrivial = want.tags.iter().any(|t| t.is_some());
